@@ -83,7 +83,7 @@ def public_entries(ctx: Ctx) -> List[FuncInfo]:
             continue
         if name in ("main", "read_input", "print_step", "in_ipynb"):
             continue
-        if name.startswith("_") and not name.startswith("__") and fi.qualname not in frozen_functions() and frozen_functions():
+        if name.startswith("_") and not (name.startswith("__") and name.endswith("__")) and fi.qualname not in frozen_functions() and frozen_functions():
             # a private helper that is not in the reference inventory is not an entry point of the library: it is
             # reached (and its effects are accounted for) through the functions that call it
             continue
